@@ -6,6 +6,7 @@ use crate::rng::{Hasher64, Rng};
 use crate::tscen::Policy;
 use std::cell::RefCell;
 use std::collections::BTreeSet;
+use std::sync::atomic::{AtomicU32, AtomicU64, Ordering};
 use std::sync::{Arc, Condvar, Mutex};
 
 #[derive(Clone, Copy, Debug, PartialEq, Eq)]
@@ -46,6 +47,17 @@ pub struct SState {
 pub struct Sched {
     mu: Mutex<SState>,
     cv: Condvar,
+    // Hot-path state. Only the baton holder ever touches it, so plain relaxed
+    // atomics are enough; they only exist to avoid taking the lock at every
+    // yield point.
+    points: AtomicU64,
+    countdown: AtomicU64,
+    next_cp: AtomicU64,
+    thread_points: Vec<AtomicU64>,
+    last_site: Vec<AtomicU32>,
+    stall_tid: usize,
+    stall_at: u64,
+    is_random: bool,
 }
 
 pub const NO_THREAD: usize = usize::MAX;
@@ -71,6 +83,9 @@ impl Sched {
         let mut rng_points = Rng::for_run(seed, 1, 0);
         let density = density.max(1);
         let countdown = 1 + rng_points.below((2 * density) as usize) as u64;
+        let mut cps = change_points.clone();
+        cps.sort();
+        let first_cp = cps.first().cloned().unwrap_or(u64::MAX);
         Arc::new(Sched {
             mu: Mutex::new(SState {
                 current: NO_THREAD,
@@ -78,10 +93,10 @@ impl Sched {
                 policy,
                 rng_points,
                 rng_choice: Rng::for_run(seed, 2, 0),
-                countdown,
+                countdown: 0,
                 density,
                 prio,
-                change_points,
+                change_points: cps,
                 points: 0,
                 thread_points: vec![0; n],
                 stall,
@@ -99,11 +114,24 @@ impl Sched {
                 next_prio_low: 999,
             }),
             cv: Condvar::new(),
+            points: AtomicU64::new(0),
+            countdown: AtomicU64::new(countdown),
+            next_cp: AtomicU64::new(first_cp),
+            thread_points: (0..n).map(|_| AtomicU64::new(0)).collect(),
+            last_site: (0..n).map(|_| AtomicU32::new(u32::MAX)).collect(),
+            stall_tid: stall.map(|s| s.0).unwrap_or(usize::MAX),
+            stall_at: stall.map(|s| s.1).unwrap_or(u64::MAX),
+            is_random: policy == Policy::Random,
         })
     }
 
     pub fn snapshot<T>(&self, f: impl FnOnce(&SState) -> T) -> T {
-        f(&self.mu.lock().unwrap())
+        let mut st = self.mu.lock().unwrap();
+        st.points = self.points.load(Ordering::Relaxed);
+        for i in 0..self.thread_points.len() {
+            st.thread_points[i] = self.thread_points[i].load(Ordering::Relaxed);
+        }
+        f(&st)
     }
 
     fn runnable(st: &SState) -> Vec<usize> {
@@ -165,7 +193,7 @@ impl Sched {
             st.switches_in_lib += 1;
         }
         st.switch_sites.insert(site);
-        let to_site = st.last_site[next];
+        let to_site = self.last_site[next].load(Ordering::Relaxed);
         st.pairs.insert((site, to_site));
         st.current = next;
         self.cv.notify_all();
@@ -193,52 +221,55 @@ impl Sched {
     }
 
     /// A yield point reached by the baton holder.
+    #[inline]
     pub fn point(&self, me: usize, site: u32) {
+        // fast path: no lock unless this point is a decision point
+        let p = self.points.fetch_add(1, Ordering::Relaxed) + 1;
+        let tp = self.thread_points[me].fetch_add(1, Ordering::Relaxed) + 1;
+        self.last_site[me].store(site, Ordering::Relaxed);
+        let stall_now = me == self.stall_tid && tp == self.stall_at;
+        let decide = if self.is_random {
+            self.countdown.fetch_sub(1, Ordering::Relaxed) <= 1
+        } else {
+            self.next_cp.load(Ordering::Relaxed) == p
+        };
+        if !stall_now && !decide {
+            return;
+        }
+        self.point_slow(me, site, p, stall_now, decide);
+    }
+
+    #[inline(never)]
+    fn point_slow(&self, me: usize, site: u32, p: u64, stall_now: bool, decide: bool) {
         let mut st = self.mu.lock().unwrap();
         if st.current != me {
             // not under the baton (should not happen); never block here
             return;
         }
-        st.points += 1;
-        st.thread_points[me] += 1;
-        st.last_site[me] = site;
-        if let Some((t, at)) = st.stall {
-            if t == me && st.thread_points[me] == at && !st.stall_fired {
-                let others = (0..st.status.len())
-                    .any(|i| i != me && st.status[i] == St::Runnable);
-                if others {
-                    st.stall_fired = true;
-                    st.status[me] = St::Stalled;
-                    if let Some(next) = Self::choose(&mut st, me) {
-                        let _st = self.switch_to(st, me, next, site);
-                        return;
-                    }
-                    st.status[me] = St::Runnable;
-                }
+        if decide {
+            if self.is_random {
+                let d = (2 * st.density) as usize;
+                let c = 1 + st.rng_points.below(d) as u64;
+                self.countdown.store(c, Ordering::Relaxed);
+            } else {
+                let next = st.change_points.iter().cloned().find(|&c| c > p).unwrap_or(u64::MAX);
+                self.next_cp.store(next, Ordering::Relaxed);
+                st.prio[me] = st.next_prio_low;
+                st.next_prio_low = st.next_prio_low.saturating_sub(1);
             }
         }
-        let decide = match st.policy {
-            Policy::Random => {
-                if st.countdown > 1 {
-                    st.countdown -= 1;
-                    false
-                } else {
-                    let d = (2 * st.density) as usize;
-                    st.countdown = 1 + st.rng_points.below(d) as u64;
-                    true
+        if stall_now && !st.stall_fired {
+            let others = (0..st.status.len()).any(|i| i != me && st.status[i] == St::Runnable);
+            if others {
+                st.stall_fired = true;
+                st.status[me] = St::Stalled;
+                if let Some(next) = Self::choose(&mut st, me) {
+                    let _st = self.switch_to(st, me, next, site);
+                    return;
                 }
+                st.status[me] = St::Runnable;
             }
-            Policy::Pct => {
-                let p = st.points;
-                if st.change_points.contains(&p) {
-                    st.prio[me] = st.next_prio_low;
-                    st.next_prio_low = st.next_prio_low.saturating_sub(1);
-                    true
-                } else {
-                    false
-                }
-            }
-        };
+        }
         if !decide {
             return;
         }
@@ -334,8 +365,9 @@ pub fn current() -> Option<(Arc<Sched>, usize)> {
 
 #[inline]
 pub fn yield_point(site: u32) {
-    let ctx = CTX.with(|c| c.borrow().clone());
-    if let Some((s, tid)) = ctx {
-        s.point(tid, site);
-    }
+    CTX.with(|c| {
+        if let Some((s, tid)) = &*c.borrow() {
+            s.point(*tid, site);
+        }
+    });
 }
